@@ -197,7 +197,8 @@ def leaves(case, t, prefix=()):
     for f in st[t]["fields"]:
         cnt = f.get("count", 1)
         for i in range(cnt):
-            name = f["name"] if cnt == 1 and not f.get("force_array") else f"{f['name']}[{i}]"
+            # `T[1] x;` is emitted as a scalar by every backend
+            name = f["name"] if cnt == 1 else f"{f['name']}[{i}]"
             ft = f["type"]
             if ft in PRIMS:
                 out.append((prefix + (name,), ft))
